@@ -177,8 +177,8 @@ OnOrIn(g, p) ==
     [] g.type = "MultiPoint"      -> p \in Range(c)
     [] g.type = "LineString"      -> OnPath(c, p)
     [] g.type = "MultiLineString" -> \E k \in DOMAIN c : OnPath(c[k], p)
-    [] g.type = "Polygon"         -> PolyStatus(c, p) # "out"
-    [] g.type = "MultiPolygon"    -> \E k \in DOMAIN c : PolyStatus(c[k], p) # "out"
+    [] g.type = "Polygon"         -> PolyStatus(CloseRings(c), p) # "out"            \* rings may be written unclosed
+    [] g.type = "MultiPolygon"    -> \E k \in DOMAIN c : PolyStatus(CloseRings(c[k]), p) # "out"      \* the UNION of the parts
 
 (***************************************************************************)
 (* Monotonicity is only decided for pairs of buffers where the supersets   *)
